@@ -99,7 +99,7 @@ def gen(seed):
         if li < nlives - 1 and rng.random() < 0.6:
             life['crash'] = {'at': rng.choice(['end', 'end', 'log-done', rng.uniform(0.0, 0.3)]),
                              'keep': [[rng.choice(['frac', 'frac', 'zero', 'all', 'minus1', 'one']), rng.random(),
-                                       rng.choice(['', '', 'zeros', 'garbage'])] for _ in range(2)]}
+                                       rng.choice(['', '', 'zeros', 'garbage', 'json'])] for _ in range(2)]}
         lives.append(life)
     lives[-1]['dev'] = 'A'
     scen = 'cache-collide' if collide else 'cache-lives'
@@ -170,6 +170,7 @@ def execute(ctx):
             deaths.extend(ctx.sim.thread_deaths)
             sim = kernel.Sim(kernel.Decisions(seed=H(ctx.seed, 'sched', li)), line_mean=ctx.knobs.get('line_mean', 0),
                              p_stall=ctx.knobs.get('p_stall', 0.0), stall_window=ctx.knobs.get('stall_window', 0.02),
+                             max_steps=ctx.knobs.get('max_steps', 12_000_000),
                              pct=ctx.knobs.get('pct', 0), pct_horizon=ctx.knobs.get('pct_horizon', 20000),
                              p_starve=ctx.knobs.get('p_starve', 0.0), starve_len=ctx.knobs.get('starve_len', 200),
                              trace_roots=ctx.sim.trace_roots, keep_log=ctx.sim.keep_log)
@@ -406,6 +407,12 @@ def run_life(ctx, sim, fs, plan, li, life, complete, Crazyflie):
                 tb = bytes(ctx.work.randrange(1, 64))
             elif tail == 'garbage':
                 tb = bytes(ctx.work.randrange(256) for _ in range(ctx.work.randrange(1, 64)))
+            elif tail == 'json':
+                # what is left parses as JSON but is not a table (only meaningful after an empty prefix)
+                tb = ctx.work.choice([b'7', b'"x"', b'[1, 2]', b'{}', b'{"a": 1}', b'null', b'true', b'{"g": {"n": 3}}',
+                                      b'{"g": [1]}'])
+                if n:
+                    n = 0
             keep[path] = (n, tb)
             if n is not None and n < len(full):
                 ctx.probe('cache file truncated by a crash')
